@@ -333,6 +333,12 @@ static inline int supervise(const std::vector<std::string>& lines, const char* o
             FILE* out = fopen(out_path, "a");
             g_real_out = out;
             for (int64_t k = start; k < n; k++) {
+                // a fresh child every 1000 behaviours: harness-side leftovers (open raw-cell
+                // sources, leaked worlds) must not accumulate into the behaviours that follow
+                if (k - start >= 1000) {
+                    fclose(out);
+                    _exit(77);
+                }
                 g_shared->cur = k;
                 g_shared->phase = -1;
                 g_shared->phase2 = -1;
@@ -357,6 +363,11 @@ static inline int supervise(const std::vector<std::string>& lines, const char* o
         int status = 0;
         waitpid(pid, &status, 0);
         if (WIFEXITED(status) && WEXITSTATUS(status) == 0) break;
+        if (WIFEXITED(status) && WEXITSTATUS(status) == 77) {   // voluntary recycling
+            start = g_shared->cur + 1;
+            g_resume_phase = -1;
+            continue;
+        }
         // abnormal end
         int64_t cur = g_shared->cur;
         int code = WIFEXITED(status) ? WEXITSTATUS(status) : 100 + WTERMSIG(status);
